@@ -22,7 +22,7 @@ SPEC = {
         "level_note": "Bounded scope: small-integer and power-of-two coordinates only. Cases of the extreme alphabet in which a slab parameter t underflows (0 < |t| < min) are outside the "
                       "checked domain and are counted, except those in which no underflowing parameter can be binding (tin >= min resp. tout <= -min, or a zero direction component already decides "
                       "'miss'), which are judged under '.t-underflows-on-non-binding-axis' sites, and those with an exact hit and no parameter beyond max, for which only 'an exact hit is reported as a hit' is "
-                      "demanded (rounding is monotone; '.truth.t-underflows.exact-hit' sites); on the max-face and guard alphabets, cases whose exact truth value differs from that of the problem "
+                      "demanded (rounding is monotone; '.truth.t-underflows.exact-hit' sites) and, for the reported points, 'in the closed box', 'on its surface' / 'ip == origin when inside' and the accuracy bound of the ordinary regime widened by denorm_min*|dir_j| (a subnormal parameter carries an absolute error; '.t-underflows' point sites - this covers a first contact whose parameter rounds to 0 with the origin strictly outside the box); every out-parameter is pre-filled with NaN before every call, so an unwritten ip/entry/exit is visible; on the max-face and guard alphabets, cases whose exact truth value differs from that of the problem "
                       "with correctly rounded differences face-origin (max-face) resp. correctly rounded parameters (guard) rest on a sub-ulp difference of two parameters and are counted, not judged; cases in which a parameter exceeds the largest finite value are checked and reported under their own '.some-t-overflows' / "
                       "'.every-t-overflows' sites.",
         "deadline": {"quick": 200, "thorough": 850},
@@ -30,7 +30,7 @@ SPEC = {
                 "origin inside, hit from outside, box behind the origin (line hits, ray misses), single contact point (grazing edge/corner/face), a zero direction component, "
                 "a slab parameter beyond the largest finite value on some / on every axis, the box is makeInfinite() / a half space or slab with a face at +-max / makeEmpty() / "
                 "empty with coordinates at max, a guard's operands are equal / one ulp apart, an exact parameter is max+1 or max+2, box coordinates all negative / straddling zero, a direction "
-                "component or a box/origin coordinate is -0.0, an underflowing parameter on a non-binding axis, an exact hit with an underflowing parameter, per axis and sign of the direction component an overflowing axis with the origin outside / inside its slab on an elongated box (the six unrolled fallback branches, both outcomes) ('miss.generic' excluded)",
+                "component or a box/origin coordinate is -0.0, an underflowing parameter on a non-binding axis, an exact hit with an underflowing parameter (reported points judged; first-contact parameter > 0 rounding to zero), per axis and sign of the direction component an overflowing axis with the origin outside / inside its slab on an elongated box (the six unrolled fallback branches, both outcomes) ('miss.generic' excluded)",
         "assumptions": ["zero direction vectors are outside the property's domain and are excluded",
                         "long double has a 64-bit significand (x86-64): the power-of-two alphabet's cross products are exact"],
     }
